@@ -159,13 +159,32 @@ def _init_worker(modname):
     _MOD = importlib.import_module(modname)
 
 
+class CaseTimeout(Exception):
+    pass
+
+
+def _alarm(signum, frame):
+    raise CaseTimeout('case did not finish within its horizon (a library call does not terminate?)')
+
+
 def _run_chunk(arg):
+    import signal
     checker, cases = arg
     out = Res()
     fn = _MOD.CHECKERS[checker]
+    limit = int(getattr(_MOD, 'CASE_TIMEOUT', 900))
+    signal.signal(signal.SIGALRM, _alarm)
     for c in cases:
         try:
-            r = fn(c)
+            signal.alarm(limit)
+            try:
+                r = fn(c)
+            finally:
+                signal.alarm(0)
+        except CaseTimeout as ex:
+            r = Res()
+            r.ev()
+            r.fail('timeout', c, str(ex), tags=['timeout'])
         except Exception:
             r = Res()
             r.ev()
@@ -177,9 +196,19 @@ def _run_chunk(arg):
 
 
 def run_case(mod, checker, case):
+    import signal
     fn = mod.CHECKERS[checker]
+    signal.signal(signal.SIGALRM, _alarm)
     try:
-        r = fn(case)
+        signal.alarm(int(getattr(mod, 'CASE_TIMEOUT', 900)))
+        try:
+            r = fn(case)
+        finally:
+            signal.alarm(0)
+    except CaseTimeout as ex:
+        r = Res()
+        r.ev()
+        r.fail('timeout', case, str(ex), tags=['timeout'])
     except Exception:
         r = Res()
         r.ev()
